@@ -45,13 +45,15 @@ _ARITH_HEADS = ('var', 'int', 'add', 'sub', 'mul', 'neg', 'len', 'cmp', 'not', '
 
 def position_arithmetic(f, counters):
     """a fact that only relates counters, lengths and constants (bounds, overflow side conditions)"""
+    mine = {inst_of(c) for c in counters}
+
     def walk(x):
         if not isinstance(x, tuple) or not x:
             return True
         if x[0] == 'var':
-            return not inst_of(x) or x in counters
+            return inst_of(x) not in mine or x in counters
         if x[0] == 'len':
-            return not insts_of(x)        # the length of a loop-invariant sequence
+            return not (insts_of(x) & mine)        # the length of a sequence this loop does not change
         if x[0] in ('int', 'bool'):
             return True
         if x[0] not in _ARITH_HEADS:
@@ -492,3 +494,30 @@ def close_term(ip, st, t):
         if not changed:
             break
     return t
+
+
+def summarise_facts(ip, st, skip=()):
+    """the facts of an arbitrary state with every finished loop (one that has an exit on this path and is not in
+    `skip`, e.g. the loop whose back edge the state sits on) put in closed form where possible"""
+    pc = list(st.pc)
+    found = set()
+    for f in pc:
+        found |= insts_of(f)
+    for hi in sorted(found, key=lambda x: -x[1]):
+        if hi in skip:
+            continue
+        rec = ip.loop_records.get(hi)
+        if rec is None or not any(e[0] == rec['fn'] and e[1] == rec['head'] for e in st.loop_exits):
+            continue
+        try:
+            cv = closed_values(ip, rec, st.loop_exits)
+        except Exception:
+            cv = {}
+        pc2 = pc
+        if cv:
+            one = {V: t for V, (t, n) in cv.items()}
+            pc2 = [T.subst(f, one) for f in pc2]
+        pc2 = summarise_loop(ip, pc2, rec, st.loop_exits, st.safety)
+        if pc2 is not None:
+            pc = pc2
+    return [f[1] if (isinstance(f, tuple) and f and f[0] == '#sum') else f for f in pc]
